@@ -216,8 +216,11 @@ class Explore:
         self.follow_exc = follow_exc
         self.limit = limit
 
-    def run(self, starts: set[int], env: dict[str, object], *, stop: set[int] = frozenset()) -> set[int]:  # type: ignore[assignment]
-        from ..util import mini_eval  # local import: util imports core
+    def run(self, starts: set[int], env: dict[str, object], *, stop: set[int] = frozenset(), on_assign=None, visit=None, strict: set[str] = frozenset()) -> set[int]:  # type: ignore[assignment]
+        """``on_assign(stmt, env) -> env | None`` lets the caller interpret an assignment itself (None = default handling);
+        ``visit(node_id, env)`` is called for every explored state; a test that does not evaluate and mentions a name in
+        ``strict`` is an AnalysisError (cannot decide) instead of being explored on both branches."""
+        from ..util import mini_eval, names_in  # local import: util imports core
 
         cfg = self.cfg
         seen: set[tuple[int, tuple]] = set()
@@ -234,6 +237,8 @@ class Explore:
                 continue
             seen.add(key)
             reached.add(nid)
+            if visit is not None:
+                visit(nid, e)
             if nid in stop:
                 continue
             node = cfg.nodes[nid]
@@ -244,7 +249,9 @@ class Explore:
                     v = bool(mini_eval(st.test, e))
                     lab = "T" if v else "F"
                     succ = [x for x in succ if cfg.label.get((nid, x)) == lab]
-                except AnalysisError:
+                except AnalysisError as err:
+                    if strict and names_in(st.test) & strict:
+                        raise AnalysisError(f"guard `{txt(st.test)[:70]}` cannot be evaluated over the witness ({err})") from err
                     succ = [x for x in succ if cfg.label.get((nid, x)) in ("T", "F") or self.follow_exc]
             elif node.kind == "raise":
                 pass
@@ -253,7 +260,10 @@ class Explore:
                     succ = [x for x in succ if cfg.label.get((nid, x)) != "exc"]
                 if node.kind == "done" and st is not None:
                     tg, val = assign_parts(st)
-                    if tg:
+                    custom = on_assign(st, dict(e)) if (tg and on_assign is not None) else None
+                    if custom is not None:
+                        e = custom
+                    elif tg:
                         e = dict(e)
                         for t in tg:
                             if isinstance(t, (ast.Name, ast.Attribute)):
